@@ -282,6 +282,9 @@ pub(crate) mod verif_keyring {
     }
 
     // ---------------------------------------------------------------- the parser
+    // E-CUT: error-message formatting produces nothing (message text is not the subject)
+    pub fn fmtwrite_cut(_o: &mut dyn core::fmt::Write, _a: core::fmt::Arguments<'_>) -> core::fmt::Result { Ok(()) }
+    pub fn format_cut(_a: core::fmt::Arguments<'_>) -> String { String::from("F") }
     pub const PK_A: &str = "P"; // any non-token string decodes (E-B64 model) to the harness's 36 bytes
     pub const PK_B: &str = "Q";
 
@@ -330,10 +333,14 @@ pub(crate) mod verif_keyring {
     }
     /// C17(2): names accepted by key generation (no TAB) round-trip through the parser.
     #[kani::proof]
+    #[kani::stub(core::fmt::write, fmtwrite_cut)]
+    #[kani::stub(alloc::fmt::format, format_cut)]
     #[kani::unwind(20)]
     pub fn c17_name_roundtrip() { name_roundtrip(false, 2); }
     /// Known finding F4: a name containing a TAB does not round-trip (the parser deletes every TAB). Fully concrete input.
     #[kani::proof]
+    #[kani::stub(core::fmt::write, fmtwrite_cut)]
+    #[kani::stub(alloc::fmt::format, format_cut)]
     #[kani::unwind(20)]
     pub fn c17_name_roundtrip_tab() {
         unsafe { ct_codecs::kani_model::ATT_LEN = 36; }
@@ -350,6 +357,8 @@ pub(crate) mod verif_keyring {
     /// in order. (a) two sections with SYMBOLIC one-byte names and symbolic choice of public keys: accepted iff names
     /// differ and keys differ; (b) ten concrete section shapes, run one after the other.
     #[kani::proof]
+    #[kani::stub(core::fmt::write, fmtwrite_cut)]
+    #[kani::stub(alloc::fmt::format, format_cut)]
     #[kani::unwind(20)]
     pub fn c17_sections() {
         unsafe { ct_codecs::kani_model::ATT_LEN = 36; }
@@ -373,6 +382,8 @@ pub(crate) mod verif_keyring {
 
     /// C17(1b): ten concrete section shapes, run one after the other (concrete inputs: the parser is executed, not solved).
     #[kani::proof]
+    #[kani::stub(core::fmt::write, fmtwrite_cut)]
+    #[kani::stub(alloc::fmt::format, format_cut)]
     #[kani::unwind(20)]
     pub fn c17_shapes() {
         unsafe { ct_codecs::kani_model::ATT_LEN = 36; }
